@@ -274,6 +274,27 @@ def run(chk):
                 dd = float(round(rng.uniform(0, 1.5e5)))
                 px, py = cx + rng.uniform(-19, 19) * sc, cy + rng.uniform(-19, 19) * sc
                 aimed_profile.append(("plate with a repeated ridge coordinate", _cp(True, px, py, dd, 6371000.0, TOP) if sph else (px, py, TOP - dd), dd))
+        if wi % 12 == 7:
+            # spherical area features whose outline is written as a closed ring (the first coordinate repeated as the last) and
+            # whose depth is given at points: every point at the latitude of the repeated vertex passes the polygon test
+            # (documented behaviour D17), whatever its longitude, and is then looked up on a depth surface that does not reach
+            # there - the lookup must end in an exception ("not in any triangle"), not run on
+            from wbgen import cart_point as _cp
+            lon0, lat0 = round(rng.uniform(-120, 100), 1), round(rng.uniform(-40, 30), 1)
+            w_, h_ = round(rng.uniform(10, 30), 1), round(rng.uniform(10, 25), 1)
+            ring = [[lon0, lat0], [lon0 + w_, lat0], [lon0 + w_, lat0 + h_], [lon0, lat0 + h_], [lon0, lat0]]
+            kind_ = ["continental plate", "oceanic plate", "mantle layer"][(wi // 12) % 3]
+            wj = {"version": "1.1", "coordinate system": {"model": "spherical", "depth method": "begin segment"},
+                  "features": [{"model": kind_, "name": "ring", "coordinates": ring,
+                                "max depth": [[1e5], [2e5, [[round(lon0 + w_ / 2, 2), round(lat0 + h_ / 2, 2)]]]],
+                                "temperature models": [{"model": "uniform", "temperature": 700.0}]}]}
+            sph = True
+            aimed_profile = []
+            for _k in range(30):
+                dd = float(round(rng.uniform(0.0, 1.9e5)))
+                qlon = lon0 + rng.choice([-1, 1]) * rng.uniform(40, 170) if _k % 3 else lon0 + rng.uniform(-2, w_ + 2)
+                qlat = lat0 if _k % 2 == 0 else lat0 + rng.uniform(0.0, h_)
+                aimed_profile.append(("at the latitude of the ring-closing vertex of a closed-ring outline", _cp(True, qlon, qlat, dd, 6371000.0, TOP), dd))
         if wi % 12 == 10:
             # a trench of two coordinates about a kilometre apart with a slab thousands of kilometres long, queried a quarter of the
             # globe away: the closest-point iteration on the trench curve (flat at its first end, p0 + t^3 (p1 - p0)) may use up its
@@ -322,7 +343,7 @@ def run(chk):
                 z = TOP if not sph else 0.0
                 lines.append("p2 0 %s %s %s %s" % (common.fhex(xx if not sph else 6371000.0), common.fhex(z), common.fhex(0.0), TOK))
                 meta.append(("section end at the surface", [xx, z], 0.0, "2d"))
-        setup, ans, errs = common.run_probe_resilient(["world 0 %s 1" % path], lines, exe=exe, timeout=600, cwd=wdir)
+        setup, ans, errs = common.run_probe_resilient(["world 0 %s 1" % path], lines, exe=exe, timeout=(60 if exe == "wbprobe" else 600), cwd=wdir)
         if not setup or not setup[0].startswith("ok"):
             # construction refused the world (C12's business) - nothing to query
             continue
